@@ -7,7 +7,7 @@ newline removed, parentheses as separate items) and classifies the file:
 
   VALID                      every construct is covered by the grammar
   INVALID(reason, offset)    unterminated-string | unterminated-bracket | unterminated-bracket-comment | bad-escape |
-                             paren-imbalance | stray-text
+                             paren-imbalance | stray-text | text-after-command-on-same-line
   legacy flags               unquoted argument with embedded quote or $(...), argument glued to a preceding
                              quoted/bracket argument or bracket comment -- never asserted on
 
@@ -107,8 +107,10 @@ def lex(text):
             i = j
             continue
         if after_cmd:
-            # something other than space/comment after the closing parenthesis on the same line
-            fail("stray-text", i)
+            # something other than space/comment after the closing parenthesis on the same line: CMake wants a newline
+            # after every command ("Expected a newline, got ..."). This is its own reason: C06's list of faults does not
+            # name it and CMinx's grammar deliberately does not require the newline.
+            fail("text-after-command-on-same-line", i)
             after_cmd = False
         if c == "(":
             if cur is None and not expect_paren:
